@@ -310,8 +310,8 @@ TopClauses(o, q) ==
       Eff(p)  == IF True(p) = 0 THEN 1 ELSE True(p)      \* known finding F9: 0 reported as 1
       OwnPrefix(r, p) ==       \* the prefix of the webentity under which the traversal meets p
         LET S == { i \in 1..Len(WpRow(q, r.id).ps) : IsPrefixOf(WpRow(q, r.id).ps[i], p) }
-            m == CHOOSE i \in S : \A k \in S : Len(WpRow(q, r.id).ps[k]) <= Len(WpRow(q, r.id).ps[i])
-        IN WpRow(q, r.id).ps[m]
+        IN IF S = {} THEN <<>>      \* total: a listed page under none of the prefixes (C20.subset then fails)
+           ELSE WpRow(q, r.id).ps[CHOOSE i \in S : \A k \in S : Len(WpRow(q, r.id).ps[k]) <= Len(WpRow(q, r.id).ps[i])]
       Cands(r) == { p \in Members(q, r.id) : r.depth = -1 \/ Len(p) - Len(OwnPrefix(r, p)) <= r.depth }
       Listed(r) == LSet(r.top)
       Subset(r) == Listed(r) \subseteq Cands(r) /\ Len(r.top) = Cardinality(Listed(r))
@@ -406,7 +406,9 @@ PagSessionClauses(post, o, S) ==
               THEN PagPages(post.trie, a.ps, a.k, a.ti, a.hasTok, a.tpath, a.co)
               ELSE [done |-> FALSE, pages |-> <<>>, ti |-> 0, tpath |-> <<>>]
       got == LSet(r.pages)
-      OwnIdx(p) == CHOOSE i \in 1..Len(a.ps) :
+      \* total: a page under none of the given prefixes (C09.member then fails) sorts first
+      OwnIdx(p) == IF \A i \in 1..Len(a.ps) : ~IsPrefixOf(a.ps[i], p) THEN 0
+                   ELSE CHOOSE i \in 1..Len(a.ps) :
                      /\ IsPrefixOf(a.ps[i], p)
                      /\ \A k2 \in 1..Len(a.ps) : IsPrefixOf(a.ps[k2], p) => Len(a.ps[k2]) <= Len(a.ps[i])
       all == r.sofar \o [j \in 1..Len(r.pages) |-> r.pages[j].l]
